@@ -226,9 +226,40 @@ pub fn run(args: &[String]) -> i32 {
             }
         }
     }
+    // the same typing rules in the other positions a value expression can be written in: posting amount, cost `@` / `@@`, lot price
+    // `{}` / `{{}}`, balance assertion.  A cost / lot must be a single amount (a bare number - also a plain literal - or a
+    // multi-commodity sum is rejected); a posting amount / assertion is at most one commodity, a bare number only if it is zero.
+    let mut positional = 0usize;
+    {
+        use crate::ledger::{run_real, Real};
+        // (text, is a single-commodity non-zero amount, is at most one commodity with bare numbers only zero)
+        let exprs: [(&str, bool, bool); 10] = [
+            ("150 USD", true, true), ("(3 * 50 USD)", true, true), ("(100 USD + 50 USD)", true, true),
+            ("150", false, false), ("(150)", false, false), ("(3 * 50)", false, false), ("0", false, true),
+            ("(1 USD + 1 EUR)", false, false), ("(1 USD - 1 USD)", false, true), ("-150 USD", true, true),
+        ];
+        for (e, single, atmost) in exprs {
+            let cases = [
+                (format!("2024/01/01 cost\n    A    10 AAPL @ {}\n    B\n\n", e), single, "cost"),
+                (format!("2024/01/01 total cost\n    A    10 AAPL @@ {}\n    B\n\n", e), single, "total cost"),
+                (format!("2024/01/01 lot\n    A    10 AAPL {{{}}}\n    B\n\n", e), single, "lot price"),
+                (format!("2024/01/01 total lot\n    A    10 AAPL {{{{{}}}}}\n    B\n\n", e), single, "total lot price"),
+                (format!("2024/01/01 amount\n    A    {}\n    B\n\n", e), atmost, "posting amount"),
+            ];
+            for (text, ok, what) in cases {
+                positional += 1;
+                let verdict = match run_real(&text) {
+                    Real::Panic => Some("book-keeping panicked".to_owned()),
+                    Real::Ok(b) => if ok { None } else { Some(format!("`{}` was accepted as {} (report {:?}): a single amount is required there", e, what, b)) },
+                    Real::Err(m) => if ok { Some(format!("`{}` is a well-typed {} but the ledger was rejected: {}", e, what, m.lines().next().unwrap_or(""))) } else { None },
+                };
+                if let Some(v) = verdict { if bad.len() < 12 { bad.push((text, v)); } }
+            }
+        }
+    }
     for (s, why) in &bad {
         println!("{}", serde_json::json!({"input": s, "contradiction": why}));
     }
-    println!("{}", serde_json::json!({"family": "c08", "evaluated": texts.len(), "contradictions": bad.len()}));
+    println!("{}", serde_json::json!({"family": "c08", "evaluated": texts.len() + positional, "contradictions": bad.len()}));
     if bad.is_empty() { 0 } else { 1 }
 }
